@@ -329,6 +329,13 @@ func (x *Exec) pureMethod(st *State, m *types.Func, recv Val, args []Val) Val {
 	}
 	ts := []Term{recv.T}
 	for _, a := range args {
+		if a.K == VSlice {
+			// the result depends on the contents of the slice: no function of the header; a fresh value
+			fv, inv := x.enc.freshVal(rt, "pure."+m.Name())
+			st.assumeAll(inv)
+			fv.Typ = rt
+			return fv
+		}
 		ts = append(ts, flatten(a)...)
 	}
 	t := x.enc.UF("pure."+m.Name(), sorts[0], ts...)
@@ -441,13 +448,7 @@ func (x *Exec) getterApply(st *State, fn *types.Func, recv Val) (Val, bool) {
 func (x *Exec) specEnv(fr *Frame, st *State, oldHeap map[string]Term) *SpecEnv {
 	env := &SpecEnv{x: x, st: st.view(), vars: map[string]Val{}, events: st.events}
 	if fr != nil {
-		if fr.fn.Pkg != nil {
-			env.pkg = fr.fn.Pkg.Pkg
-		} else if fr.fn.Origin() != nil && fr.fn.Origin().Pkg != nil {
-			env.pkg = fr.fn.Origin().Pkg.Pkg
-		} else if fr.fn.Parent() != nil && fr.fn.Parent().Pkg != nil {
-			env.pkg = fr.fn.Parent().Pkg.Pkg
-		}
+		env.pkg = fnPkg(fr.fn)
 		if fr.contract != nil {
 			env.lets = fr.contract.Lets
 		}
@@ -1073,7 +1074,7 @@ func (x *Exec) linkImplementers(fr *Frame, st *State, recvT types.Type, m *types
 			}
 			pv := x.ifacePayload(recv.T, impl)
 			pv.Typ = impl
-			env := &SpecEnv{x: x, st: st.view(), vars: map[string]Val{}, lets: ct.Lets, pkg: callee.Pkg.Pkg}
+			env := &SpecEnv{x: x, st: st.view(), vars: map[string]Val{}, lets: ct.Lets, pkg: fnPkg(callee)}
 			env.vars[callee.Params[0].Name()] = pv
 			env.old = env
 			bindResults(env, callee.Signature, ct, []Val{res})
@@ -1098,10 +1099,7 @@ func (x *Exec) reassumeInvs(st *State) {
 		return
 	}
 	fn := x.topFrame.fn
-	var pkg *types.Package
-	if fn.Pkg != nil {
-		pkg = fn.Pkg.Pkg
-	}
+	pkg := fnPkg(fn)
 	for _, p := range fn.Params {
 		v, ok := x.entryRegs[p]
 		if !ok || v.K != VTerm || v.T.Sort != SRef {
